@@ -1285,4 +1285,53 @@ theorem undo_apply_ZD_refuted : ¬ undo_apply_ZD_statement := by
   revert this
   decide
 
+-- ================================================================== `play` and the canonical state
+
+/-- the canonical state of a child is its block replayed on the canonical state of the parent -/
+theorem canon_child (e : Env) (g : St) (hpl : ParentLower e) (bi cur : Nat) (hpre : (e.block bi).pre = some cur) :
+    canon e g bi = replayBlock e (canon e g cur) (e.block bi) := by
+  have hk := block_known_of_pre e bi (by rw [hpre]; simp)
+  obtain ⟨m, hm⟩ : ∃ m, e.blocks.length = m + 1 := by
+    cases hb : e.blocks with
+    | nil => rw [hb] at hk; simp at hk
+    | cons x r => exact ⟨r.length, by simp⟩
+  obtain ⟨r, hr⟩ := ancestors_head e m cur
+  have h1 : ancestors e (e.blocks.length + 1) bi = [bi] ++ cur :: r := by
+    rw [ancestors_succ_some e _ bi cur hpre, hm, hr]; rfl
+  have h2 := ancestors_tail_eq e hpl bi cur [bi] r h1
+  unfold canon
+  rw [h1, ← h2, List.reverse_append, replayChain_append]
+  rfl
+
+/-- **`play` keeps the node on the canonical state** (empty pool): if the state refines the canonical state of the
+tip and `play` accepts `b` (known to the environment under its id), the result refines the canonical state of `b`
+and points at it -/
+theorem play_invariant (e : Env) (s : St) (lh : Int) (b : Block) (g : St) (hpl : ParentLower e)
+    (hb : e.block b.id = b) (hp : s.pool = []) (hok : (play e s lh b).2 = .ok)
+    (hs : TRefines s (canon e g s.pointer)) :
+    TRefines (play e s lh b).1 (canon e g b.id) ∧ (play e s lh b).1.pointer = b.id ∧ (play e s lh b).1.pool = [] := by
+  obtain ⟨h1, h2⟩ := play_eq_todoBlock e s lh b hp hok
+  obtain ⟨h3, _⟩ := todoBlock_eq e s _ lh b h1
+  rw [h3]
+  refine ⟨?_, rfl, ?_⟩
+  · rw [canon_child e g hpl b.id s.pointer (by rw [hb]; exact h2), hb]
+    exact replayBlock_trefines e b s _ hs
+  · exact (replayTxs_frame e b.prop b.txs s).2.2.trans hp
+
+/-- one more admitted transaction keeps `PoolValid` -/
+theorem poolValid_snoc (e : Env) (l : List Nat) (i : Nat) (s : St) (h : PoolValid e l s)
+    (hadm : ∃ lh, admitTx (applyPool e l s) lh (e.tx i) = .ok) (hwf : TxWF e i)
+    (hfresh : ∀ o, lookup (applyPool e l s).U (i, o) = none) (hfz : citesFrozen (applyPool e l s) (e.tx i)) :
+    PoolValid e (l ++ [i]) s := by
+  induction l generalizing s with
+  | nil => exact ⟨hadm, hwf, hfresh, hfz, trivial⟩
+  | cons j rest ih =>
+    obtain ⟨a, b, c, d, hrest⟩ := h
+    exact ⟨a, b, c, d, ih _ hrest hadm hfresh hfz⟩
+
+example : wkEnv.block (wkEnv.block 2).id = wkEnv.block 2 ∧ (canon wkEnv wkG 1).pool = [] ∧
+    (canon wkEnv wkG 1).pointer = 1 ∧ (play wkEnv (canon wkEnv wkG 1) 0 (wkEnv.block 2)).2 = .ok ∧
+    (play wkEnv (canon wkEnv wkG 1) 0 (wkEnv.block 2)).1.U = (canon wkEnv wkG 2).U := by
+  decide
+
 end XV.C01
